@@ -421,6 +421,14 @@ func (c04) checkAST(c *core.C, cs c04Case) {
 			c.Failf("UnmarshalControl(%q) into a variable that held another field: %s", cs.Text, d)
 		}
 		c.Cover("entry:UnmarshalControl-reused-receiver")
+		// ... while the caller still holds what the variable held before (he copied the struct, as one does with
+		// values): a later decode into the variable must not reach into that copy
+		held := re
+		if err := re.UnmarshalControl("new-x, new-y (<< 2) | new-z, new-w"); err == nil {
+			if d := diffDep(&held, cs.Dep); d != "" {
+				c.Failf("a copy of the value decoded from %q changed when another field was decoded into the variable it was copied from: %s", cs.Text, d)
+			}
+		}
 	}
 	nontrivial := false
 	for _, rel := range cs.Dep {
